@@ -252,7 +252,7 @@ class QuotedString(String):
 
     """
 
-    _quoted_pattern = re.compile(br'(?:\r|\n|\\.|\")')
+    _quoted_pattern = re.compile(br'(?:\r|\n|\0|\\.|\")')
     _quoted_specials_pattern = re.compile(br'[\"\\]')
 
     __slots__ = ['_string', '_raw']
@@ -286,7 +286,7 @@ class QuotedString(String):
         for match in cls._quoted_pattern.finditer(buf, marker):
             unquoted += buf[marker:match.start(0)]
             match_group = match.group(0)
-            if match_group in (b'\r', b'\n'):
+            if match_group in (b'\r', b'\n', b'\0'):
                 raise NotParseable(buf)
             elif match_group.startswith(b'\\'):
                 escape_char = match_group[-1:]
